@@ -155,7 +155,11 @@ def run_walk(shard, tier, acc):
                     tname = reps_[k - 1]
                     ivs = intervals([p * len(vals) for p, vals in types[tname]])
                 for v, cell, w in reps(ivs):
-                    explore(prefix + [v], expect + [min(cell)], meas * w if meas is not None else None)
+                    # at the two extremes of a variable draw (0.0 and the largest double < 1) the floating-point cumulative sum may
+                    # fall a rounding error short: any group is accepted there (measure 2^-53), only a crash is a failure;
+                    # for the structure draw the extreme must still select a structure
+                    anycell = (k > 0 and v in (0.0, TOP))
+                    explore(prefix + [v], expect + [-1 if anycell else min(cell)], meas * w if meas is not None else None)
                 return
             except Exception as e:
                 acc.evals += 1
@@ -172,7 +176,7 @@ def run_walk(shard, tier, acc):
                 acc.fail(dict(case0, draws=prefix), '[%s] first draw %r (cumulative sum of the %d structure probabilities is %r): random_walk selects no base structure, '
                          'the honeyword session then fails with IndexError' % (name, prefix[0], len(base), seq_sum([p for p, _ in base])), sig)
                 return
-            want = tuple(zip(base[si][1], expect[1:]))
+            want = tuple(zip(base[si][1], [g_[1] if e_ == -1 else e_ for e_, g_ in zip(expect[1:], got)]))
             if got != want:
                 acc.fail(dict(case0, draws=prefix), '[%s] draws %r selected %r, the reference cell is %r' % (name, prefix, got, want), 'wrong-cell')
                 return
